@@ -54,7 +54,7 @@ CORPUS = [
 ]
 
 if __name__ == "__main__":
-    run_builder_check(PID, gen_cases, oracle, fields=None, truncate_at_leak=True, corpus=CORPUS,
+    run_builder_check(PID, gen_cases, oracle, fields=None, truncate_at_leak=True, after_leak_signature="after-C05-leak", corpus=CORPUS,
                       rule="weighted grammar over tool/power/coolant/tool_change/halt family interleaved with moves, "
                            "modes, temperatures (shadow interlock state keeps ~80% of the calls valid; 12% malformed "
                            "stream: OFF/unknown modes, negative/non-finite values); every 4th history under bounds.",
